@@ -276,8 +276,9 @@ class FftScenario(Scenario):
                 ev[-1]['a'] = ['@' + w0, '@' + p]
             gr, gc = grids[i]
             k = {'pixelscale': du, 'oversample': os_}
-            if rng.random() < 0.5 and gr // os_ >= 1 and gc // os_ >= 1:
-                k['shape'] = [rng.randint(1, gr // os_), rng.randint(1, gc // os_)]
+            if rng.random() < 0.5 and gr // os_ >= 2 and gc // os_ >= 2:
+                # (a 1x1 output is a one-element field, which lentil treats as a broadcastable scalar: not generated)
+                k['shape'] = [rng.randint(2, gr // os_), rng.randint(2, gc // os_)]
             rs = rn = None
             tag = {'expect': 'ok', 'case': 'plain', 'nfields': nfields}
             if sc is not None:
